@@ -58,6 +58,9 @@ func init() {
 	})
 	v("Assume", func(e *Engine, fn *ssa.Function, a []Value) Value {
 		c := a[0].(*Term)
+		if !(c.IsConst() && c.val != 0) {
+			e.flushAsserts()
+		}
 		if c.IsConst() {
 			if c.val == 0 {
 				e.endPath(endInfeasible, "assume false")
@@ -65,6 +68,11 @@ func init() {
 			return nil
 		}
 		if v, ok := e.evalBool(c); ok && v {
+			e.addPC(c)
+			return nil
+		}
+		if len(e.p.decisions) < len(e.p.prefix) {
+			// replaying: an earlier path already established that pc && c is satisfiable here
 			e.addPC(c)
 			return nil
 		}
@@ -90,6 +98,7 @@ func init() {
 		return nil
 	})
 	v("Known", func(e *Engine, fn *ssa.Function, a []Value) Value {
+		e.flushAsserts()
 		e.p.known = append(e.p.known, knownPred{id: a[0].(string), cond: a[1].(*Term)})
 		return nil
 	})
@@ -98,7 +107,9 @@ func init() {
 		if n.IsConst() {
 			e.p.inputLen = n.SVal()
 		}
-		e.stepLimit = e.cfg.StepBudget + e.cfg.StepsPerByte*e.p.inputLen
+		if e.cfg.StepBudget > 0 {
+			e.stepLimit = e.cfg.StepBudget + e.cfg.StepsPerByte*e.p.inputLen
+		}
 		return nil
 	})
 	v("SharedInput", func(e *Engine, fn *ssa.Function, a []Value) Value {
@@ -123,6 +134,12 @@ func init() {
 	v("DeepEqual", func(e *Engine, fn *ssa.Function, a []Value) Value {
 		return e.deepEqual(a[0], a[1], map[[2]*Cell]bool{}, 0)
 	})
+	v("And", func(e *Engine, fn *ssa.Function, a []Value) Value { return e.ts.And(a[0].(*Term), a[1].(*Term)) })
+	v("Or", func(e *Engine, fn *ssa.Function, a []Value) Value { return e.ts.Or(a[0].(*Term), a[1].(*Term)) })
+	v("And3", func(e *Engine, fn *ssa.Function, a []Value) Value {
+		return e.ts.And(e.ts.And(a[0].(*Term), a[1].(*Term)), a[2].(*Term))
+	})
+	v("Implies", func(e *Engine, fn *ssa.Function, a []Value) Value { return e.ts.Or(e.ts.Not(a[0].(*Term)), a[1].(*Term)) })
 	v("Symbolic", func(e *Engine, fn *ssa.Function, a []Value) Value { return e.ts.True })
 	v("Steps", func(e *Engine, fn *ssa.Function, a []Value) Value { return e.ts.Const(64, uint64(e.p.steps)) })
 
